@@ -96,15 +96,15 @@ type Plan struct {
 	Strategy   int    `json:"strategy"`
 	// Alias: the application keeps ONE endpoint slice, edits it in place and passes
 	// it again; Scribble n > 0: it overwrites that slice after every n-th call
-	Alias    bool `json:"alias,omitempty"`
-	InitDup  int  `json:"init_dup,omitempty"`
-	Big      bool `json:"big,omitempty"`  // endpoint lists of up to 40 names
-	Tick     bool `json:"tick,omitempty"` // the clock moves 1 ns with every reading
+	Alias   bool `json:"alias,omitempty"`
+	InitDup int  `json:"init_dup,omitempty"`
+	Big     bool `json:"big,omitempty"`  // endpoint lists of up to 40 names
+	Tick    bool `json:"tick,omitempty"` // the clock moves 1 ns with every reading
 	// WallSteps: clock readings carry a monotonic part and the wall clock is stepped
 	// (NTP corrections, VM resume) by some of the advance operations
 	WallSteps bool `json:"wall_steps,omitempty"`
-	Scribble int  `json:"scribble,omitempty"`
-	Ops      []Op `json:"ops"`
+	Scribble  int  `json:"scribble,omitempty"`
+	Ops       []Op `json:"ops"`
 }
 
 //go:norace
